@@ -638,17 +638,14 @@ func runMore(a *Analyzer, r *Results) {
 		}
 	}
 
-	// ---- W5.fresh: slices stored into builder literals inside a loop are allocated inside that iteration
+	// ---- W5.fresh: a (non-byte) slice stored into a protocol builder is never shared between the builders of different
+	// elements: where the store (or the call chain leading to it) sits in a loop, the backing array is allocated in that
+	// same iteration. Judged for every such store, wherever a refactoring puts it (loop body or helper called from it).
 	for _, f := range a.P.Funcs {
 		if isSpecTypesPkg(funcPkgPath(f)) {
 			continue
 		}
-		li := a.Loops(f)
 		for _, b := range f.Blocks {
-			l := li.Innermost(b)
-			if l == nil {
-				continue
-			}
 			for _, in := range b.Instrs {
 				st, ok := in.(*ssa.Store)
 				if !ok {
@@ -672,17 +669,120 @@ func runMore(a *Analyzer, r *Results) {
 				if _, isByte := st.Val.Type().Underlying().(*types.Slice).Elem().Underlying().(*types.Basic); isByte {
 					continue // byte strings copied from readers are immutable views
 				}
-				root := sliceRoot(st.Val, map[ssa.Value]bool{})
-				ok2 := true
-				why := ""
-				if root != nil {
-					if ri, isI := root.(ssa.Instruction); isI && !l.Body[ri.Block()] {
-						ok2 = false
-						why = "the slice stored into " + nt.Obj().Name() + "." + fieldName(fa.X.Type(), fa.Field) + " is backed by an allocation made outside the loop (shared between iterations)"
+				why := a.sharedAcrossIterations(st.Val, in, 0)
+				if why != "" {
+					why = "the slice stored into " + nt.Obj().Name() + "." + fieldName(fa.X.Type(), fa.Field) + " " + why
+				}
+				r.Check("W5.fresh", props("C20", "C11"), "a slice stored into a protocol builder is never shared between the builders of different elements: where the store, or a call chain leading to it, sits in a loop, the backing array is allocated in that same iteration", shortName(f)+"|"+nt.Obj().Name()+"."+fieldName(fa.X.Type(), fa.Field), a.P.InstrPos(in), why == "", why, "D")
+			}
+		}
+	}
+}
+
+// sharedAcrossIterations: "" when the slice value v used at instruction `at` cannot be one backing array seen by
+// several iterations of a loop around `at` (or around a call chain leading to it); otherwise the reason.
+func (a *Analyzer) sharedAcrossIterations(v ssa.Value, at ssa.Instruction, depth int) string {
+	f := at.Parent()
+	l := a.Loops(f).Innermost(at.Block())
+	if c, ok := v.(*ssa.Const); ok && c.IsNil() {
+		return ""
+	}
+	root := sliceRoot(v, map[ssa.Value]bool{})
+	if root == nil {
+		// not an allocation we can see: a parameter, a global, a captured variable or a call result
+		switch x := stripSlice(v).(type) {
+		case *ssa.Parameter:
+			if depth > 4 {
+				return ""
+			}
+			idx := -1
+			for i, p := range f.Params {
+				if p == x {
+					idx = i
+				}
+			}
+			for _, g := range a.P.Funcs {
+				for _, gb := range g.Blocks {
+					for _, gi := range gb.Instrs {
+						ci, ok := gi.(ssa.CallInstruction)
+						if !ok || ci.Common().StaticCallee() != f || idx < 0 || idx >= len(ci.Common().Args) {
+							continue
+						}
+						if l != nil {
+							return "is a parameter stored inside a loop (shared between iterations)"
+						}
+						if w := a.sharedAcrossIterations(ci.Common().Args[idx], gi, depth+1); w != "" {
+							return w
+						}
 					}
 				}
-				r.Check("W5.fresh", props("C20", "C11"), "a slice stored into a builder literal inside a loop is allocated in that iteration (builders of different elements never share a backing array)", shortName(f)+"|"+nt.Obj().Name()+"."+fieldName(fa.X.Type(), fa.Field), a.P.InstrPos(in), ok2, why, "D")
 			}
+			return ""
+		case *ssa.Global, *ssa.FreeVar:
+			return "is backed by a variable that outlives the call (shared between builders)"
+		case *ssa.Call:
+			if l == nil {
+				return ""
+			}
+			// a call made in this iteration: fresh when the callee allocates what it returns
+			if sc := x.Call.StaticCallee(); sc != nil && len(sc.Blocks) > 0 {
+				for _, sb := range sc.Blocks {
+					for _, si := range sb.Instrs {
+						if ret, ok := si.(*ssa.Return); ok && len(ret.Results) > 0 {
+							rr := sliceRoot(ret.Results[0], map[ssa.Value]bool{})
+							if rr == nil {
+								if rc, ok := ret.Results[0].(*ssa.Const); ok && rc.IsNil() {
+									continue
+								}
+								return "comes from " + shortName(sc) + ", which does not allocate the slice it returns"
+							}
+						}
+					}
+				}
+			}
+			if ri, ok := ssa.Value(x).(ssa.Instruction); ok && !l.Body[ri.Block()] {
+				return "is computed before the loop (shared between iterations)"
+			}
+			return ""
+		}
+		if l != nil {
+			if vi, ok := v.(ssa.Instruction); ok && !l.Body[vi.Block()] {
+				return "is computed before the loop (shared between iterations)"
+			}
+		}
+		return ""
+	}
+	if l != nil {
+		if ri, isI := root.(ssa.Instruction); isI && !l.Body[ri.Block()] {
+			return "is backed by an allocation made outside the loop (shared between iterations)"
+		}
+		return ""
+	}
+	// allocated in this function, outside any loop: one allocation per call; the function may itself be called in a loop,
+	// which still gives one allocation per iteration
+	return ""
+}
+
+func stripSlice(v ssa.Value) ssa.Value {
+	for {
+		switch x := v.(type) {
+		case *ssa.Slice:
+			v = x.X
+		case *ssa.Call:
+			if isBuiltin(x, "append") {
+				v = x.Call.Args[0]
+				continue
+			}
+			return v
+		case *ssa.Phi:
+			if len(x.Edges) > 0 {
+				// a loop-carried accumulator: follow the edge that enters the loop
+				v = x.Edges[0]
+				continue
+			}
+			return v
+		default:
+			return v
 		}
 	}
 }
